@@ -3,6 +3,7 @@ module verifharness
 go 1.18
 
 require (
+	github.com/koykov/bytebuf v1.0.7
 	github.com/koykov/clock v1.1.4
 	github.com/koykov/dyntpl v0.0.0
 	github.com/koykov/inspector v1.4.6
@@ -11,7 +12,6 @@ require (
 
 require (
 	github.com/koykov/bytealg v1.0.4 // indirect
-	github.com/koykov/bytebuf v1.0.7 // indirect
 	github.com/koykov/byteconv v1.0.0 // indirect
 	github.com/koykov/byteseq v1.0.1 // indirect
 	github.com/koykov/entry v1.0.2 // indirect
